@@ -25,4 +25,4 @@ while work and n < int(sys.argv[2] if len(sys.argv) > 2 else 20):
     print('--- path', n, st, 'choices', p.choices)
     for chk in p.checks:
         s = z3.Solver(); [s.add(x) for x in chk.pc]; s.add(z3.Not(chk.cond)); r = s.check()
-        print('   ', chk.label, 'VALID' if r == z3.unsat else ('REFUTED ' + str(s.model())[:200] if r == z3.sat else 'unknown'), '' if r == z3.unsat else ('detail=%r' % (chk.detail,))[:400])
+        print('   ', chk.label, 'VALID' if r == z3.unsat else ('REFUTED ' + str(s.model())[:200] if r == z3.sat else 'unknown'), '' if r == z3.unsat else ('detail=%r' % (chk.detail,))[:int(os.environ.get('DBG_DETAIL', 400))])
